@@ -10,6 +10,8 @@
 (*   Items    the select list: a sequence of kinds                          *)
 (*            "col" | "sync" | "async" | "spinasync" | "spin" | "once"       *)
 (*            | "oncenull" (a ONCE function whose result is NULL)           *)
+(*            | "fail" (an unqualified call that returns an error for row     *)
+(*              FailRow and behaves like "sync" for every other row)          *)
 (*   call     <<row, item>>;  its value is Val(row)                          *)
 (*   st       call -> "none" | "spawned" | "running" | "done"                *)
 (*   wg       the query's wait group counter                                 *)
@@ -21,6 +23,11 @@
 (* Dev_AddInGoroutine: the wait group is incremented by the goroutine        *)
 (* itself instead of by the spawner (the classic misuse) - a deviation the   *)
 (* model must reject.                                                        *)
+(* A failing row ends the row loop: the items left of the failing call have   *)
+(* been evaluated (their goroutines exist), the items right of it and the     *)
+(* later rows have not.  Exec then returns the error - after the wait group   *)
+(* has drained, so that no ASYNC / SPINASYNC call outlives the query          *)
+(* (Dev_NoWaitOnError: it returns at once, the pinned behaviour).             *)
 (***************************************************************************)
 EXTENDS Integers, Sequences, FiniteSets, TLC
 
@@ -33,7 +40,12 @@ NoOnce == -1
 CONSTANTS NRows, Items, Dev_AddInGoroutine,
           Nested,        \* the select list belongs to a nested query (derived table, CTE body, subquery): its wait group is
                          \* chained to the outer query's by a goroutine that waits for it and then releases the outer one
-          Dev_NoChain    \* deviation: the outer query does not wait for the nested query's wait group
+          Dev_NoChain,   \* deviation: the outer query does not wait for the nested query's wait group
+          FailRow,       \* 0, or the row for which the "fail" item returns an error
+          Dev_NoWaitOnError, \* deviation: a failed Exec returns without waiting for the calls it has started
+          EmptyWindow,   \* LIMIT 0 / an OFFSET past the last row: the select list is still evaluated for every row (the
+                         \* window is cut afterwards), no row reaches the output - and Exec still waits for every call
+          Dev_NoWaitWhenEmpty \* deviation: Exec returns at once when the output is empty
 
 VARIABLES pc, next, st, wg, cell, inv, once, sched,
           owg            \* the outer query's wait group (1 while the chain goroutine is waiting; unused when ~Nested)
@@ -43,7 +55,7 @@ Rows  == 1..NRows
 Its   == DOMAIN Items
 IsOnce(k) == k \in {"once", "oncenull"}
 NullVal == -4
-Calls == {<<r, i>> : r \in Rows, i \in {j \in Its : Items[j] \in {"sync", "async", "spinasync", "spin", "once", "oncenull"}}}
+Calls == {<<r, i>> : r \in Rows, i \in {j \in Its : Items[j] \in {"sync", "fail", "async", "spinasync", "spin", "once", "oncenull"}}}
 Kind(c) == Items[c[2]]
 Val(r) == r * 10
 Bg(c)  == Kind(c) \in {"async", "spinasync", "spin"}          \* runs in a goroutine
@@ -58,23 +70,31 @@ AInit ==
 \* the main goroutine evaluates every item of row `next`, left to right, in one step; the first
 \* ONCE call of the query runs, later ones reuse what it returned - NULL included
 OnceVal(r) == IF \E i \in Its : Items[i] = "oncenull" THEN NullVal ELSE Val(r)
+\* the items of row r the main goroutine gets to: all of them, or those up to the failing call
+Fails(r) == FailRow # 0 /\ r = FailRow /\ \E i \in Its : Items[i] = "fail"
+FailAt == CHOOSE i \in Its : Items[i] = "fail" /\ \A j \in Its : Items[j] = "fail" => i <= j
+Reached(r, i) == ~Fails(r) \/ i <= FailAt
 MainRow ==
     /\ pc = "rows" /\ next <= NRows
     /\ LET r == next
-           onceNow == IF \E i \in Its : IsOnce(Items[i]) THEN (IF once = NoOnce THEN OnceVal(r) ELSE once) ELSE once
-       IN  /\ st' = [c \in Calls |-> IF c[1] = r THEN (IF Bg(c) THEN "spawned" ELSE IF IsOnce(Kind(c)) /\ once # NoOnce THEN "none" ELSE "done") ELSE st[c]]
-           /\ inv' = [c \in Calls |-> IF c[1] = r /\ (Kind(c) = "sync" \/ (IsOnce(Kind(c)) /\ once = NoOnce)) THEN inv[c] + 1 ELSE inv[c]]
-           /\ wg' = IF Dev_AddInGoroutine THEN wg ELSE wg + Cardinality({c \in Calls : c[1] = r /\ Counted(c)})
+           onceHere == \E i \in Its : IsOnce(Items[i]) /\ Reached(r, i)
+           onceNow == IF onceHere THEN (IF once = NoOnce THEN OnceVal(r) ELSE once) ELSE once
+           Ev(c) == c[1] = r /\ Reached(r, c[2])
+       IN  /\ st' = [c \in Calls |-> IF Ev(c) THEN (IF Bg(c) THEN "spawned" ELSE IF IsOnce(Kind(c)) /\ once # NoOnce THEN "none" ELSE "done") ELSE st[c]]
+           /\ inv' = [c \in Calls |-> IF Ev(c) /\ (Kind(c) \in {"sync", "fail"} \/ (IsOnce(Kind(c)) /\ once = NoOnce)) THEN inv[c] + 1 ELSE inv[c]]
+           /\ wg' = IF Dev_AddInGoroutine THEN wg ELSE wg + Cardinality({c \in Calls : Ev(c) /\ Counted(c)})
            /\ once' = onceNow
-           /\ cell' = [cell EXCEPT ![r] = [i \in Its |->
+           /\ cell' = IF Fails(r) THEN cell     \* the row never reaches the output
+                      ELSE [cell EXCEPT ![r] = [i \in Its |->
                           CASE Items[i] = "col"   -> Val(r)
-                            [] Items[i] = "sync"  -> Val(r)
+                            [] Items[i] \in {"sync", "fail"} -> Val(r)
                             [] Items[i] = "async" -> Slot
                             [] IsOnce(Items[i])   -> onceNow
                             [] OTHER -> Absent]]
            /\ sched' = Append(sched, [ev |-> "row", r |-> r])
+           /\ pc' = IF Fails(r) THEN "failed" ELSE pc
     /\ next' = next + 1
-    /\ UNCHANGED <<pc, owg>>
+    /\ UNCHANGED owg
 
 RowsDone == pc = "rows" /\ next > NRows /\ pc' = "wait" /\ UNCHANGED <<next, st, wg, cell, inv, once, sched, owg>>
 
@@ -97,34 +117,39 @@ FnFinish(c) ==
 
 \* wg.Wait() returns, the post-processors put the values into the async columns, Exec returns
 Return ==
-    /\ pc = "wait" /\ (IF Nested THEN owg = 0 ELSE wg = 0)
+    /\ \/ pc = "wait" /\ ((IF Nested THEN owg = 0 ELSE wg = 0) \/ (EmptyWindow /\ Dev_NoWaitWhenEmpty))
+       \/ pc = "failed" /\ (Dev_NoWaitOnError \/ wg = 0)
     /\ cell' = [r \in Rows |-> [i \in Its |->
                   IF cell[r][i] = Slot THEN (IF st[<<r, i>>] = "done" THEN Val(r) ELSE Unresolved) ELSE cell[r][i]]]
-    /\ pc' = "done" /\ sched' = Append(sched, [ev |-> "return"])
+    /\ pc' = (IF pc = "failed" THEN "doneErr" ELSE "done") /\ sched' = Append(sched, [ev |-> "return"])
     /\ UNCHANGED <<next, st, wg, inv, once, owg>>
 
 ANext == MainRow \/ RowsDone \/ ChainDone \/ (\E c \in Calls : FnStart(c) \/ FnFinish(c)) \/ Return
 ASpec == AInit /\ [][ANext]_avars /\ WF_avars(ANext)
 
 ---------------------------------------------------------------------------
-ATypeOK == pc \in {"rows", "wait", "done"} /\ wg >= 0
-Returned == pc = "done"
+ATypeOK == pc \in {"rows", "wait", "failed", "done", "doneErr"} /\ wg >= 0
+Returned == pc \in {"done", "doneErr"}
+Succeeded == pc = "done"
 \* once Exec has returned: every ASYNC and SPINASYNC call has been invoked exactly once and completed
-AllCompleted == Returned => \A c \in Calls : Counted(c) => st[c] = "done" /\ inv[c] = 1
+\* (after a failure: every call the query got to - none is left spawned or running)
+AllCompleted ==
+    /\ Succeeded => \A c \in Calls : Counted(c) => st[c] = "done" /\ inv[c] = 1
+    /\ pc = "doneErr" => \A c \in Calls : Counted(c) => st[c] \in {"none", "done"} /\ inv[c] = (IF st[c] = "done" THEN 1 ELSE 0)
 \* ... its value sits in that row's column, equal to the unqualified call's value; SPIN / SPINASYNC add no column
 ValuesInPlace ==
-    Returned => \A r \in Rows : \A i \in Its :
+    Succeeded /\ ~EmptyWindow => \A r \in Rows : \A i \in Its :
         CASE Items[i] \in {"async", "sync", "col"} -> cell[r][i] = Val(r)
           [] Items[i] \in {"spin", "spinasync"}  -> cell[r][i] = Absent
           [] OTHER -> TRUE
 \* ONCE: a single invocation per query, every row sees that value
 OnceLaw ==
-    Returned => \A i \in Its : IsOnce(Items[i]) =>
+    Succeeded => \A i \in Its : IsOnce(Items[i]) =>
         /\ Cardinality({c \in Calls : c[2] = i /\ inv[c] = 1}) = (IF \A j \in 1..(i - 1) : ~IsOnce(Items[j]) THEN 1 ELSE 0)
-        /\ \A r \in Rows : cell[r][i] = OnceVal(1)
+        /\ ~EmptyWindow => \A r \in Rows : cell[r][i] = OnceVal(1)
 \* nothing is invoked twice, ever
 AtMostOnce == \A c \in Calls : inv[c] <= 1
-Terminates == <>(pc = "done")
+Terminates == <>Returned
 \* a SPIN call may still be running when Exec returns - that is allowed
 Export == Returned => PrintT(sched)
 =============================================================================
